@@ -862,7 +862,7 @@ func (g *gen) node(kind string, level, maxLevel int, ctxKnown, funded bool, ids 
 			if isCreateKind(k) && isFailEnd(ch.End) && r.Intn(5) == 0 {
 				ch.End = "oversize"
 			}
-			if k == kCALL && len(ch.Items) > 0 && r.Intn(3) == 0 { // a victim: effects only, often self-destructing
+			if k == kCALL && len(ch.Items) > 0 && !isFailEnd(ch.End) && r.Intn(3) == 0 { // a victim: effects only, often self-destructing
 				leaf := true
 				for _, it := range ch.Items {
 					if it.Op == "child" || it.Op == "again" {
@@ -870,7 +870,7 @@ func (g *gen) node(kind string, level, maxLevel int, ctxKnown, funded bool, ids 
 					}
 				}
 				if leaf {
-					ch.Pay = true
+					ch.Pay, ch.Val = true, 0
 					if r.Intn(3) != 0 {
 						ch.End = "selfdestruct"
 					}
@@ -1063,13 +1063,20 @@ func genSystematic() []sysCase {
 	for _, k := range frameKinds {
 		for _, m := range tableModes {
 			for _, vEnd := range []string{"selfdestruct", "stop"} {
-				for _, multi := range []bool{false, true} {
+				for variant := 0; variant < 8; variant++ {
+					multi, plain, once := variant&1 != 0, variant&2 != 0, variant&4 != 0
 					victim := func() Item {
-						v := leafChild(kCALL, vEnd, 30, 0, Item{Op: "sstore", A: 3, B: 4}, Item{Op: "xfer", A: 4, B: 2})
+						v := leafChild(kCALL, vEnd, 30, 0, Item{Op: "sstore", A: 3, B: 4})
+						if !plain {
+							v.Child.Items = append(v.Child.Items, Item{Op: "xfer", A: 4, B: 2})
+						}
 						v.Child.Pay, v.Child.Ben = true, 1
 						return v
 					}
 					inner := &Node{ID: 10, Kind: k, Ben: 2, Items: []Item{{Op: "again", A: 30}, {Op: "again", A: 30, B: 5}, {Op: "again", A: 30}}}
+					if once {
+						inner.Items = inner.Items[:1]
+					}
 					var dead Item
 					if m == "static" {
 						inner.End = "stop"
@@ -1105,6 +1112,7 @@ func genSystematic() []sysCase {
 					if multi {
 						name += "-multitx"
 					}
+					name += fmt.Sprintf("-v%d", variant>>1)
 					out = append(out, sysCase{Kind: k, Mode: m, Action: name, Depth: 1, Tree: root})
 				}
 			}
